@@ -195,6 +195,13 @@ def run(ctx):
             raise
     ctx.coverage["behaviours_conformance"] = total_conf
     ctx.coverage["sequences_interruption_enumerated"] = total_enum
+    if not ctx.violations:
+        # "whatever blocks arrive ... whenever pruning runs": the real pruner next to the real Synchronizer and L1 head
+        ctx.include("G02", accept=lambda k: k.startswith(("node:state-served-below-pruned-history", "node:head-state-below-floor",
+                                                           "node:head-block-pruned", "node:floor-above-retention-bound",
+                                                           "node:retained", "node:no-convergence:revert-below-retention-floor",
+                                                           "crash:pruner.")),
+                    why="the real Pruner service running concurrently with stores, reverts and L1 heads on one store (Node.tla)")
     ctx.assumptions += [
         "a single Batch.Write is atomic and durable (C15 examines the backends)",
         "L1 heads are recorded in increasing order (L1 reorgs are C17's subject)",
